@@ -992,8 +992,12 @@ func checkComposeMerge(p *core.Prog, r *core.Result) {
 	}
 	// the internal edit a freshly built *Edit takes its kind from: kind: editKinds[int(e.kind)]
 	internalSrc := func(E ssa.Value) ssa.Value {
+		in, ok := E.(ssa.Instruction)
+		if !ok {
+			return nil
+		}
 		var src ssa.Value
-		core.Instrs(compose, func(in ssa.Instruction) {
+		core.Instrs(in.Parent(), func(in ssa.Instruction) {
 			st, ok := in.(*ssa.Store)
 			if !ok {
 				return
@@ -1013,29 +1017,63 @@ func checkComposeMerge(p *core.Prog, r *core.Result) {
 		})
 		return src
 	}
-	// kindOf: the kind E is known to have under the given facts
-	kindOf := func(E ssa.Value, facts []core.FactSet) string {
+	same := func(a, b ssa.Value) bool {
+		if a == nil || b == nil {
+			return false
+		}
+		if a == b {
+			return true
+		}
+		// a value and the cell it was loaded from denote the same edit
+		if u, ok := a.(*ssa.UnOp); ok && u.Op == token.MUL && u.X == b {
+			return true
+		}
+		if u, ok := b.(*ssa.UnOp); ok && u.Op == token.MUL && u.X == a {
+			return true
+		}
+		return false
+	}
+	// kindOf: the kind E is known to have at `at` (plus the facts of a phi edge). When E is a parameter of a merge
+	// helper, the question is asked at the helper's only call site about the argument, looking through the
+	// predicate helpers whose outcome is known there.
+	var kindOf func(E ssa.Value, at ssa.Instruction, extra core.FactSet, depth int) string
+	kindOf = func(E ssa.Value, at ssa.Instruction, extra core.FactSet, depth int) string {
+		if prm, ok := E.(*ssa.Parameter); ok && depth < 2 {
+			h := prm.Parent()
+			callers := p.StaticCallers(h)
+			if len(callers) != 1 || len(p.FuncValueUses(h)) > 0 {
+				return ""
+			}
+			idx := paramIndex(h, prm)
+			if idx < 0 || idx >= len(callers[0].Common().Args) {
+				return ""
+			}
+			return kindOf(callers[0].Common().Args[idx], callers[0].(ssa.Instruction), nil, depth+1)
+		}
+		facts := xfacts(p, at)
+		if extra != nil {
+			facts = append(facts, xfactsOf(p, extra)...)
+		}
 		src := internalSrc(E)
-		for _, fs := range facts {
-			for f := range fs {
-				bo, ok := f.Cond.(*ssa.BinOp)
-				if !ok || !((bo.Op == token.EQL && f.Val) || (bo.Op == token.NEQ && !f.Val)) {
+		for _, f := range facts {
+			bo, ok := f.Cond.(*ssa.BinOp)
+			if !ok || !((bo.Op == token.EQL && f.Val) || (bo.Op == token.NEQ && !f.Val)) {
+				continue
+			}
+			for _, pr := range [][2]ssa.Value{{bo.X, bo.Y}, {bo.Y, bo.X}} {
+				base := kindFieldOf(pr[0])
+				if base == nil {
 					continue
 				}
-				for _, pr := range [][2]ssa.Value{{bo.X, bo.Y}, {bo.Y, bo.X}} {
-					e := kindFieldOf(pr[0])
-					if e == nil {
-						continue
+				e := f.Arg(base)
+				if same(e, E) {
+					if g := globalName(pr[1]); g != "" {
+						return g
 					}
-					if e == E {
-						if g := globalName(pr[1]); g != "" {
-							return g
-						}
-					}
-					if src != nil && e == src {
-						if k, ok := core.ConstInt(pr[1]); ok {
-							return internal[k]
-						}
+				}
+				if src != nil && same(e, src) {
+					if k, ok := core.ConstInt(pr[1]); ok {
+						return internal[k]
 					}
 				}
 			}
@@ -1078,13 +1116,20 @@ func checkComposeMerge(p *core.Prog, r *core.Result) {
 		if !ok {
 			return nil, false
 		}
-		if h := core.Callee(c); h != nil && h.Pkg == compose.Pkg && h.Name() == "slice" && len(c.Call.Args) == 3 {
+		if h := core.Callee(c); h != nil && h.Pkg == compose.Pkg && h.Name() == "slice" && len(c.Call.Args) == 3 && c.Parent().Name() != "diffReplacements" {
 			return c, true
 		}
 		return nil, false
 	}
 	nSurplus, nRepl := 0, 0
-	core.Instrs(compose, func(in ssa.Instruction) {
+	var hosts []*ssa.Function
+	for f := range staticClosure(p, compose) {
+		if f.Pkg == compose.Pkg && f.Name() != "diffReplacements" {
+			hosts = append(hosts, f)
+		}
+	}
+	sort.Slice(hosts, func(i, j int) bool { return hosts[i].Pos() < hosts[j].Pos() })
+	visit := func(in ssa.Instruction) {
 		switch x := in.(type) {
 		case *ssa.Store:
 			fa, ok := x.Addr.(*ssa.FieldAddr)
@@ -1114,19 +1159,15 @@ func checkComposeMerge(p *core.Prog, r *core.Result) {
 			}
 			okAll, detail := true, ""
 			for _, a := range alts(sc.Call.Args[0]) {
-				facts := []core.FactSet{p.FactsAt(x)}
-				if a.facts != nil {
-					facts = append(facts, a.facts)
-				}
 				src := sourceEdit(a.v)
 				if src == nil {
 					okAll, detail = false, "the surplus is not cut from the elements of an edit"
 					continue
 				}
-				from := kindOf(src, facts)
+				from := kindOf(src, x, a.facts, 0)
 				final := explicit
 				if final == "" {
-					final = kindOf(target, facts)
+					final = kindOf(target, x, a.facts, 0)
 				}
 				if from == "" || final == "" {
 					okAll, detail = false, "the kind of the run the surplus is cut from, or of the edit that keeps it, is not determined on this path"
@@ -1150,12 +1191,8 @@ func checkComposeMerge(p *core.Prog, r *core.Result) {
 				}
 				var out []string
 				for _, a := range alts(v) {
-					facts := []core.FactSet{p.FactsAt(x)}
-					if a.facts != nil {
-						facts = append(facts, a.facts)
-					}
 					if src := sourceEdit(a.v); src != nil {
-						out = append(out, kindOf(src, facts))
+						out = append(out, kindOf(src, x, a.facts, 0))
 					} else {
 						out = append(out, "")
 					}
@@ -1176,7 +1213,10 @@ func checkComposeMerge(p *core.Prog, r *core.Result) {
 			}
 			r.Check(okOrder && len(olds) > 0 && len(news) > 0, "R16.7", construct, p.InstrPos(x), "the element-wise diff of a replace takes the deleted run as old and the added run as new", "the element-wise diff of a merged delete/add pair does not take the deleted run as its old side and the added run as its new side: the replace reports the two values swapped")
 		}
-	})
+	}
+	for _, h := range hosts {
+		core.Instrs(h, visit)
+	}
 	r.Floor("R16.7", nSurplus, 2, "surplus edits kept when merging a delete/add pair")
 	r.Floor("R16.7", nRepl, 2, "element-wise diffs of merged pairs")
 }
